@@ -1735,7 +1735,9 @@ fn gen_mutation(rng: &mut Rng, fonts: &[(&'static str, Vec<u8>)]) -> Mutation {
             for _ in 0..rng.range(1, 3) {
                 if len > 8 {
                     let rel = rng.below((len - 4) as u64) as usize;
-                    let v = *rng.pick(&[0xFFFFFFFEu32, 0xFFFFFFFD, 0xFFFFFFFC, 0xFFFFFFFB, 0xFFFFFFF0]);
+                    // near u32::MAX (index-map branch) and near every 16-bit boundary (the branch without a
+                    // DeltaSetIndexMap truncates the index to the inner u16)
+                    let v = *rng.pick(&[0xFFFFFFFEu32, 0xFFFFFFFD, 0xFFFFFFFC, 0xFFFFFFFB, 0xFFFFFFF0, 0x0000FFFF, 0x0000FFFE, 0x0000FFFD, 0x0000FFFC, 0x00010000, 0x0001FFFF, 0x0001FFFD, 0x7FFFFFFF, 0x8000FFFE, 0]);
                     edits.push((format!("COLR+{}", rel), off + rel, v.to_be_bytes().to_vec()));
                 }
             }
@@ -2485,6 +2487,17 @@ fn load_fonts() -> Vec<(&'static str, Vec<u8>)> {
         ("CBDT", d::CBDT.to_vec()),
         ("CHARSTRING_PATH_OPS", d::CHARSTRING_PATH_OPS.to_vec()),
     ];
+    // both branches of the COLR variation-index lookup: the variable COLR fonts as they are (with a DeltaSetIndexMap)
+    // and with varIndexMapOffset nulled (COLR v1 header offset 26), keeping the ItemVariationStore
+    for (name, base) in [("COLRV0V1_VARIABLE:no_var_index_map", d::COLRV0V1_VARIABLE)] {
+        let mut b = base.to_vec();
+        if let Some((_, off, len)) = table_dir(&b).into_iter().find(|(t, _, _)| t == b"COLR") {
+            if len >= 34 && u16::from_be_bytes([b[off], b[off + 1]]) >= 1 {
+                b[off + 26..off + 30].copy_from_slice(&[0; 4]);
+                v.push((name, b));
+            }
+        }
+    }
     // IFT-carrying fonts: SIMPLE_GLYF + an `IFT ` / `IFTX` table from font-test-data's builders
     let base = FontRef::new(d::SIMPLE_GLYF).unwrap();
     for (name, ift) in [
